@@ -1,6 +1,7 @@
 import HdVerif.Model.Json
 import HdVerif.Model.SREvidence
 import HdVerif.Model.SRDocument
+import HdVerif.Model.SRTree
 open Lean HdVerif HdVerif.Drv HdVerif.SREvidence
 
 def optStr (j : Json) (k : String) : Except String (Option String) :=
@@ -96,7 +97,32 @@ def parseSeg (j : Json) : Except String Seg := do
          frames := frames, refSeries := if refser == "absent" then none else some series,
          refInstances := refInst }
 
+partial def parseNode (j : Json) : Except String SRTree.Node := do
+  let attrs ← (← getArr j "attrs").toList.mapM (fun kv => do
+    let a ← kv.getArr?
+    match a.toList with
+    | [k, v] => pure (← k.getStr?, ← v.getStr?)
+    | _ => throw "attribute must be [keyword, value]")
+  let ch ← (← getArr j "children").toList.mapM parseNode
+  pure (.mk attrs (← getBool j "has_seq") ch)
+
+/-- document order list of (attributes as [keyword, value]) of a tree: what the harness compares with the real `.content` -/
+partial def flatNode (t : SRTree.Node) : List Json :=
+  Json.arr (t.attrs.map (fun kv => Json.arr #[Json.str kv.1, Json.str kv.2])).toArray ::
+    (if t.hasSeq then t.children.flatMap flatNode else [])
+
 def handlers : List (String × Handler) := [
+  ("convertTree", fun j => do
+    let t ← parseNode (← j.getObjVal? "tree")
+    let own ← (← getArr j "own").toList.mapM (fun kv => do
+      let a ← kv.getArr?
+      match a.toList with
+      | [k, v] => pure (← k.getStr?, ← v.getStr?)
+      | _ => throw "attribute must be [keyword, value]")
+    pure (exceptToJson (fun (t' : SRTree.Node) => Json.mkObj [
+      ("items", Json.arr (flatNode t').toArray),
+      ("parsed", exceptToJson (fun (p : SRTree.Node) => Json.mkObj [
+          ("items", Json.arr (flatNode p).toArray)]) (SRTree.parseDoc (SRTree.writeDoc own t')))]) (SRTree.convertRoot t))),
   ("find", fun j => do
     let tree ← parseItem (← j.getObjVal? "tree")
     let qn ← optStr j "name"
